@@ -28,9 +28,9 @@ def run(ctx):
     pc.design_level(ctx)
     # 2. implementation -> model
     binp = ctx.build("publish")
-    batches = [("main", ctx.seed, 7, 10, 34, 14)] if q else [("main", ctx.seed, 30, 14, 40, 40), ("long", ctx.seed + 500, 8, 8, 90, 12)]
+    batches = [("main", ctx.seed, 7, 8, 30, 12)] if q else [("main", ctx.seed, 30, 14, 40, 40), ("long", ctx.seed + 500, 8, 8, 90, 12)]
     tot = dict(runs=0, obs=0, fin=0, reads=0, api=0, raced=0, stale=0, distinct=0, pairs=0, best_changes=0, reorgs=0, diverged=0,
-               quiesce=0, sims=0, queries=0)
+               quiesce=0, sims=0, queries=0, pos=0, own=0, stalef=0, ptx=0, walks=0, just=0, nxt=0, api4xx=0, tails=0, skipped=0)
     phases = {}
     sigs = {}
     for label, seed, streams, runs, blocks, traceruns in batches:
@@ -41,7 +41,18 @@ def run(ctx):
         for s, n in pc.report_driver_violations(ctx, d, trace_path, label, how).items():
             sigs[s] = sigs.get(s, 0) + n
         for r in d["runs"]:
+            if r["run"] < 0:
+                continue                      # pseudo entry of a sequential probe
             tot["runs"] += 1
+            tot["pos"] += 1 if r.get("pos") else 0
+            tot["own"] += r["blocks_packed_between_stream_blocks_and_at_the_end"]
+            tot["stalef"] += r["blocks_packed_on_a_stale_flow"]
+            tot["ptx"] += r["pool_txs_packed"]
+            tot["walks"] += r["whole_state_walks"]
+            tot["just"] += r["justified_observations"]
+            tot["nxt"] += r["next_revision_requests"]
+            tot["api4xx"] += r["api_4xx"]
+            tot["skipped"] += r["blocks_delivered"] + r["blocks_packed_between_stream_blocks_and_at_the_end"] - r["blocks_stored"]
             tot["obs"] += r["observations"]
             tot["fin"] += r["finalized_observations"]
             tot["reads"] += r["reads"]
@@ -59,6 +70,8 @@ def run(ctx):
                 tot["quiesce"] += 1
                 tot["sims"] += r["quiescence"]["call_simulations"]
                 tot["queries"] += r["quiescence"]["queries"]
+                tot["api4xx"] += r["quiescence"].get("api_4xx", 0)
+                tot["tails"] += 1 if r["quiescence"].get("tail_equals_reference") else 0
         ctx.sample({k: v for k, v in d["runs"][0].items() if k != "violations"}, limit=3)
         pc.validate(ctx, trace_path, label, how)
     # the binding demonstration runs AFTER the main batches: on a tree whose behaviour is broken the demo's own driver
@@ -66,7 +79,9 @@ def run(ctx):
     demo_ok = pc.binding_demo(ctx, binp)
     if not demo_ok and not ctx.violations and not ctx.known_hit:
         raise Infra("the demo trace was rejected by Trace_Publish but the main batches were not")
-    # 3. by-product: race detector
+    # 3. directed schedule: a reader suspended inside Engine.Justified() between its two loads
+    pc.directed_justified_gap(ctx)
+    # 4. by-product: race detector
     pc.race_byproduct(ctx)
 
     ctx.cov["evaluations"] = tot["obs"] + tot["fin"]
@@ -87,6 +102,16 @@ def run(ctx):
     ctx.cov["quiescence_queries"] = tot["queries"]
     ctx.cov["quiescence_call_simulations"] = tot["sims"]
     ctx.cov["driver_violation_signatures"] = sigs
+    ctx.cov["proof_of_stake_runs"] = tot["pos"]
+    ctx.cov["blocks_packed_by_the_node_between_stream_blocks_and_at_the_end"] = tot["own"]
+    ctx.cov["blocks_packed_on_a_stale_flow"] = tot["stalef"]
+    ctx.cov["pool_txs_packed"] = tot["ptx"]
+    ctx.cov["blocks_refused_or_known"] = tot["skipped"]
+    ctx.cov["whole_state_walks"] = tot["walks"]
+    ctx.cov["justified_observations"] = tot["just"]
+    ctx.cov["next_revision_requests"] = tot["nxt"]
+    ctx.cov["api_4xx"] = tot["api4xx"]
+    ctx.cov["tails_imported_after_the_query_batch_equal_to_reference"] = tot["tails"]
     ctx.cov["rule"] = ("one evaluation = one observation by a reader goroutine (atomic load of bestSummary or of the finalized checkpoint) "
                        "followed by its reads on the real node while ONE goroutine imports a seeded pre-minted stream (side branches, "
                        "reorganisations, epoch boundaries, a late branch refused by finality) and then produces blocks; schedules are not "
